@@ -157,3 +157,26 @@ func init() {
 		propMeta[id] = m
 	}
 }
+
+// wave 8 (held out; additions made after the measurement)
+var addedRulesW8 = map[string]string{
+	"C02": " One forgery kind: under the right key, unexpired, right issuer, but the accessToken claim is missing, empty or null.",
+	"C03": " User names include user$1, svc$$ and pc${0}$.",
+	"C05": " A third of the correct Basic requests use accounts whose passwords contain colons.",
+	"C08": " 1 websocket run in 5 sends an empty binary message in front of every n-th transport message; a third of the short-length headers come without a body, for keep-alive, close and data types.",
+	"C10": " Hostile headers include values that are not UTF-8.",
+	"C11": " A third of the unframeable endings are a header that announces more than 128 KiB with a few bytes behind it, the client staying connected.",
+	"C13": " Wrong-audience tokens may carry azp = this client; ID tokens carry further claims in 4 of 5 runs (groups as names, 60 names, objects; nested roles).",
+	"C14": " 1 run in 4 has an account whose password begins and ends with a blank.",
+	"C16": " The status of a host-policy denial is judged here as well (shared with C03).",
+	"C18": " The query-token issuer is drawn independently of the query-token key.",
+	"C20": " Unknown realms come in several spellings; payloads near the limit are adjusted so that the request body has exactly 131072 bytes or 1-100 more.",
+}
+
+func init() {
+	for id, a := range addedRulesW8 {
+		m := propMeta[id]
+		m.Rule += a
+		propMeta[id] = m
+	}
+}
